@@ -80,7 +80,9 @@ def c11(tier, seed):
     for i, t in enumerate(texts):
         for form in ('$(%s)', '`%s`'):
             sub = form % ('./t%d' % i)
-            rescan = 'substitution:output-contains-substitution-syntax' if '$(' in t else None
+            rescan = None
+            if '$(' in t:   # the `$(..)` pass runs after the backquote pass and scans what that one inserted (known finding)
+                rescan = 'substitution:backquote-output-scanned-by-the-dollar-pass' if form.startswith('`') else 'substitution:output-contains-substitution-syntax'
             out.append({'line': './pargs "%s"' % sub, 'files': files, 'expect_stdout': _argv([t]), 'area': rescan or 'substitution:double-quoted'})
             out.append({'line': './pargs "p%sq"' % sub, 'files': files, 'expect_stdout': _argv(['p' + t + 'q']), 'area': rescan or 'substitution:double-quoted'})
             if t not in ('*', '~') and '|' not in t:
